@@ -355,6 +355,14 @@ def e2e_case(case):
     skw = {"block_size": BLOCK}
     ukw = {}
     ckw = {}
+    if case.get("timeouts"):
+        # stream time-outs shorter than one throttle pause: they bound how long the *peer* may stall, a pause the
+        # limit itself asks for is not a stall (nobody stalls here)
+        # (set on the side that throttles: to the other side a throttled peer *is* a slow peer)
+        if levels == ["client"]:
+            ckw["socket_timeout"] = case["timeouts"]
+        else:
+            skw["socket_timeout"] = case["timeouts"]
     listing = direction in ("list", "mlsd")          # a directory listing is a download too
     srv_dir = "write" if direction == "download" or listing else "read"
     cli_dir = "read" if direction == "download" or listing else "write"
@@ -665,6 +673,12 @@ def e2e_items(tier):
                 for nconn in (1, 2):
                     cases.append({"levels": [lv], "direction": direction, "nconn": nconn, "nusers": 1, "size": 20 * BLOCK,
                                   "relogin": how})
+    # stream time-outs shorter than a throttle pause
+    for lv in LEVELS:
+        for direction in ("download", "upload", "list"):
+            for nconn in (1, 2):
+                cases.append({"levels": [lv], "direction": direction, "nconn": nconn, "nusers": 1,
+                              "size": 20 * BLOCK if direction != "list" else 20 * 60, "timeouts": BLOCK / LIM / 4})
     for direction in ("download", "upload"):
         for nconn in (1, 2):
             cases.append({"levels": [], "direction": direction, "nconn": nconn, "nusers": 1, "size": 20 * BLOCK})
@@ -693,7 +707,7 @@ def run(tier, seed, t0):
                                   "shared vs cloned (two concurrent streams)"]},
               "e2e": {"levels": LEVELS, "pairs": "all ordered pairs (first = tightest)", "directions": ["download", "upload"],
                       "connections_users": [(1, 1), (2, 1), (2, 2), (3, 2)], "mid_transfer_logins": "three more connections of the measured users log in and quit at 25/50/60 % of the transfer", "churn": "extra connections of the same users log in and out between the logins of the measured ones", "sizes": [BLOCK, 3 * BLOCK + 1, 20 * BLOCK],
-                      "limit": LIM, "cases": ncases, "relogin": "free user then limited user and the reverse on one control connection"}}
+                      "limit": LIM, "cases": ncases, "relogin": "free user then limited user and the reverse on one control connection", "timeouts": "server and client socket_timeout of a quarter of one throttle pause (nobody stalls)"}}
     return report.finish(
         PID, tier, seed, "model_checking", part, t0,
         rule="API: every sequence over the (chunk, duration, gap) alphabet through the real ThrottleStreamIO on the virtual "
